@@ -13,7 +13,7 @@ def run_one(sid, all_props=False):
         return {"id": sid, "status": "obsolete", "property": meta["property"]}
     tmp = tempfile.mkdtemp(prefix="rbv-seeded-")
     try:
-        subprocess.run(["rsync", "-a", "--exclude", "target", "--exclude", ".git", "/repo/", tmp + "/"], check=True)
+        subprocess.run(["rsync", "-a", "--exclude", "target", "--exclude", ".git", os.environ.get("PATCH_CHECK_REPO", "/repo").rstrip("/") + "/", tmp + "/"], check=True)
         r = subprocess.run(["patch", "-p1", "-s", "-d", tmp, "-i", os.path.join(d, "patch.diff")],
                            stdout=subprocess.PIPE, stderr=subprocess.STDOUT, text=True)
         if r.returncode != 0:
